@@ -1,4 +1,5 @@
 import AcraModel.Keystore.Calls
+import AcraModel.Keystore.V1Cache
 import AcraModel.Generated.KeystoreCrash
 /-!
 # The key-rotation tool `acra-rotate` (file variant) as a sequence of events (C08)
@@ -14,8 +15,8 @@ The persistent state is what survives a restart: per key id the key generations 
 decryption (0 = the key pair that existed before, 1 = the tool's new pair) and per data file the generation
 its content is encrypted with (`none` = torn garbage). The save of a key pair is ONE event here: whatever
 happens inside it, the old key stays offered and the new one is offered iff the save got far enough –
-that is what the keystore theorems of C08 give (`v1_write_op_atomic`, `v2_write_op_atomic`; for the two
-files of a v1 pair the harness cuts inside the save).
+that is what the keystore theorems of C08 give (`v1_write_op_atomic`, `v2_write_op_atomic`); `saveCut` below
+opens that event up into the storage / back-end calls of the key store's write operation.
 -/
 namespace AcraModel.Keystore.Rotate
 open AcraModel.Keystore
@@ -57,7 +58,9 @@ def step (v : Variant) (mode : FaultMode) (st : RSt) : REv → RSt × Option Out
     let new : RSt := { st with files := upd2 st.files c i (some 1) }
     match mode with
     | .none => (new, none)
-    | .err => (st, some .err)
+    -- `ioutil.WriteFile` opens the file with O_TRUNC and then writes: an I/O error of the write (disk full, quota)
+    -- comes after the old content is gone – the file holds a prefix of the new content and the tool returns
+    | .err => (if v.atomicRewrite then st else { st with files := upd2 st.files c i none }, some .err)
     | .cb => (st, some .crash)
     | .ca => (new, some .crash)
     | .torn => (if v.atomicRewrite then st else { st with files := upd2 st.files c i none }, some .crash)
@@ -93,6 +96,29 @@ def codeVariant : Variant :=
 
 def codeEvents (clients : List (Nat × Nat)) : List REv :=
   if Generated.KeystoreCrash.rotateKeySavedWhenGenerated then eventsSavedFirst clients else eventsCode clients
+
+/-! ## inside the save: the key store's own write operation, cut after its `j`-th call -/
+
+/-- the slot of the key pair the tool rotates (storage key pair of the first client) -/
+def pairSlot : Slot := ⟨.sp, 0⟩
+
+/-- what the restarted key store offers for decryption, as generations of the TOOL's numbering (0 = the pair that
+existed, 1 = the tool's new pair), newest first, duplicates removed; `none` = "all keys" fails -/
+def offeredOf : Obs → Option (List Nat)
+  | .keys l => some ((l.map (· - 1)).eraseDups)
+  | _ => none
+
+/-- v1: all `n` files of the key id are rewritten, then `SaveDataEncryptionKeys` = the key store's rotation of the
+pair, crashing right after its `j`-th storage call: calls made, outcome, keys offered after the restart -/
+def saveCutV1 (j : Nat) : List Call × Outcome × Option (List Nat) :=
+  let st := ((V1.init (-1)).run [.gen pairSlot]).1
+  let r := st.stepF ⟨.ca, j⟩ (.gen pairSlot)
+  (r.2.1, r.2.2, offeredOf (r.1.clear.step (.all pairSlot)).2)
+
+def saveCutV2 (j : Nat) : List BCall × Outcome × Option (List Nat) :=
+  let st := (V2.init.run [.gen pairSlot]).1
+  let r := st.stepF ⟨.ca, j⟩ (.gen pairSlot)
+  (r.2.1, r.2.2, offeredOf (r.1.step (.all pairSlot)).2)
 
 /-! ## the order "save first" is safe at every cut -/
 
